@@ -42,6 +42,8 @@ class QFrame:
         self.pending = []
 
 FEAS_TIMEOUT_MS = 5000
+MUST_HOLD_TIMEOUT_MS = 1000     # entailment probes (piece sharing, short-circuit sites): `unknown` is "not entailed" (sound)
+SITE_TIMEOUT_MS = 500
 INCREMENTAL_TIMEOUT_MS = 1000
 
 
@@ -318,26 +320,32 @@ class PathState:
                     for f in side:
                         self.len_solver.add(f)
 
-    def check(self, *extra):
+    def check(self, *extra, timeout_ms=None):
         """sat / unsat / unknown of pc + scopes + extra."""
         self.stats['feasibility_queries'] = self.stats.get('feasibility_queries', 0) + 1
         import time as _t
         t0 = _t.time()
         assumptions = [x for x in self.scopes if not _has_quantifier(x)] + list(extra)
         if self._incremental_lost < 3:
-            r = self.solver.check(*assumptions)
-            if r == z3.unknown:
+            if timeout_ms is not None:
+                self.solver.set('timeout', timeout_ms)
+            try:
+                r = self.solver.check(*assumptions)
+            finally:
+                if timeout_ms is not None:
+                    self.solver.set('timeout', INCREMENTAL_TIMEOUT_MS)
+            if r == z3.unknown and timeout_ms is None:
                 self._incremental_lost += 1
         else:
             r = z3.unknown
         if r == z3.unknown:
             # z3's incremental mode is much weaker on strings than a fresh solver on the same assertions
             fresh = z3.Solver()
-            fresh.set('timeout', self._fresh_timeout)
+            fresh.set('timeout', self._fresh_timeout if timeout_ms is None else min(timeout_ms, self._fresh_timeout))
             fresh.add(self.solver.assertions())
             fresh.add(*assumptions)
             r = fresh.check()
-            if r == z3.unknown:
+            if r == z3.unknown and timeout_ms is None:
                 # the path condition is beyond the solver: do not spend the full budget on every later question
                 # of this path (unknown = explore, which is sound)
                 self._fresh_timeout = max(300, self._fresh_timeout // 2)
@@ -384,9 +392,9 @@ class PathState:
             return True       # over-approximate: explore
         return r == z3.sat
 
-    def must_hold(self, t):
-        """True iff ``t`` is entailed by the current path condition (+ scopes)."""
-        r = self.check(z3.Not(t))
+    def must_hold(self, t, timeout_ms=MUST_HOLD_TIMEOUT_MS):
+        """True iff ``t`` is (quickly shown to be) entailed by the current path condition (+ scopes)."""
+        r = self.check(z3.Not(t), timeout_ms=timeout_ms)
         return r == z3.unsat
 
     def _len_check(self, t):
@@ -563,10 +571,10 @@ class PathState:
         elif self._fork_by_lengths(t) is not None:
             r = 'T' if self._fork_by_lengths(t)[0] else 'N'
             self._record_known(t, r == 'T')
-        elif self.must_hold(t):
+        elif self.must_hold(t, SITE_TIMEOUT_MS):
             r = 'T'
             self._record_known(t, True)
-        elif self.must_hold(z3.Not(t)):
+        elif self.must_hold(z3.Not(t), SITE_TIMEOUT_MS):
             r = 'N'
             self._record_known(t, False)
         else:
